@@ -33,7 +33,7 @@ def gc_m(a: Tuple[float, float], b: Tuple[float, float]) -> float:
 
 @st.composite
 def st_graph(draw, min_nodes: int = 4, max_nodes: int = 12, varied_speed: bool = True, arbitrary_lengths: bool = False,
-             scales: Tuple[int, ...] = (1,), block_times: bool = False) -> Dict[str, Any]:
+             scales: Tuple[int, ...] = (1,), block_times: bool = False, parallel: bool = False) -> Dict[str, Any]:
     n = draw(st.integers(min_nodes, max_nodes))
     side = math.ceil(math.sqrt(n))
     jit = st.integers(-8, 8)
@@ -72,20 +72,29 @@ def st_graph(draw, min_nodes: int = 4, max_nodes: int = 12, varied_speed: bool =
             # an explicit travel_time attribute (as in the shipped Denver file), not necessarily length / speed
             e.append(round(base / 1000.0 / (speed or 40) * 3600.0 * draw(st.sampled_from([0.5, 1.0, 2.0])), 3))
         edges.append(e)
+    if parallel:
+        # parallel streets between the same two junctions (dual carriageways, crescents: MultiDiGraph keys >= 1, as in the
+        # shipped Manhattan graph); the link table keeps one link per ordered junction pair
+        for k in draw(st.lists(st.integers(0, len(edges) - 1), max_size=3)):
+            u, v, length, speed = edges[k][:4]
+            edges.append([u, v, round(length * draw(st.sampled_from([1.0, 1.2, 2.0])), 3), draw(st.sampled_from(SPEEDS + [None]))])
     return {"nodes": nodes, "edges": edges}
 
 
 def graph_to_node_link(spec: Dict[str, Any]) -> Dict[str, Any]:
+    keys: Dict[Tuple[int, int], int] = {}
+    links = []
+    for e in spec["edges"]:
+        k = keys.get((e[0], e[1]), 0)
+        keys[(e[0], e[1])] = k + 1
+        links.append(dict({"source": e[0], "target": e[1], "key": k, "length": e[2]}, **({"speed_kmph": e[3]} if e[3] is not None else {}),
+                          **({"travel_time": e[4]} if len(e) > 4 else {})))
     return {
         "directed": True,
         "multigraph": True,
         "graph": {},
         "nodes": [{"id": i, "y": la, "x": lo} for i, la, lo in spec["nodes"]],
-        "links": [
-            dict({"source": e[0], "target": e[1], "key": 0, "length": e[2]}, **({"speed_kmph": e[3]} if e[3] is not None else {}),
-                 **({"travel_time": e[4]} if len(e) > 4 else {}))
-            for e in spec["edges"]
-        ],
+        "links": links,
     }
 
 
